@@ -208,6 +208,9 @@ def check_open_alloc(rep, facts, a, inplace_key, rule='R14.2'):
         if d[0] == 'call' and d[1].endswith('copy_from_slice') and w[1] == (('f', '0'),):
             src = d[2][1]
             okt = sp is not None and src == ('field', '1', sp)
+    if not okt and tagv[0] == 'okval' and tagv[1][0] == 'call' and tagv[1][1] == 'Deserializable::from_bytes' and tagv[1][4] and \
+            (tagv[1][4][2] or '').startswith('aead::AeadTag<') and sp is not None and tagv[1][2] == (('field', '1', sp),):
+        okt = True      # AeadTag::from_bytes = exact-length guard + whole copy (C12 R12.2)
     rep.check(okt, 'R06.2', fn, 'tag-is-tail', pp(tagv)[:240],
               'the tag is a whole copy of split_at(ciphertext, len-Nt).1 (the last Nt bytes)', where(a, p))
     rep.check(args[2] == ('param', 3), 'R06.2', fn, 'aad-passthrough', pp(args[2]), 'the aad parameter, unmodified', where(a, p))
